@@ -13,6 +13,7 @@ import (
 	"lunar/toolkit-core/otel"
 	"strconv"
 	"strings"
+	"sync"
 
 	"github.com/rs/zerolog/log"
 	"go.opentelemetry.io/otel/attribute"
@@ -47,7 +48,10 @@ type userDefinedMetricsProcessor struct {
 
 	metaData *streamtypes.ProcessorMetaData
 
-	metricObj      interface{}
+	metricObj interface{}
+	// written by every transaction that reaches a gauge processor, read by the
+	// metrics collection callback: guarded by callbackMutex
+	callbackMutex  sync.Mutex
 	callbackValues []callbackValue
 
 	labelManager *lunar_metrics.LabelManager
@@ -154,6 +158,8 @@ func (p *userDefinedMetricsProcessor) addOrUpdateGaugeValue(
 	labels map[string]string,
 	attributes []attribute.KeyValue,
 ) {
+	p.callbackMutex.Lock()
+	defer p.callbackMutex.Unlock()
 	// If the labels are the same, we update the value
 	// Otherwise, we add a new value
 	for i, value := range p.callbackValues {
@@ -304,6 +310,8 @@ func (p *userDefinedMetricsProcessor) metricCallback(
 	_ context.Context,
 	result metric.Float64Observer,
 ) error {
+	p.callbackMutex.Lock()
+	defer p.callbackMutex.Unlock()
 	for _, value := range p.callbackValues {
 		result.Observe(
 			value.value,
